@@ -56,12 +56,16 @@ cell (int pi, int ci, int nrb, int size, struct res *r)
   char sig[160];
   memcpy (arena, pristine, ARENA);
   char *out = (char *) arena + OFF;
-  errno = 0;
+  /* errno as an unrelated earlier call may have left it: a failure must replace it with ERANGE or EINVAL */
+  int entry_errno = ((pi + ci + nrb + size) & 1) ? EPERM : 0;
   char *ret = 0;
   int k = VH_TRY (0);
   if (k == 0)
     {
-      ret = crypt_gensalt_rn (prefixes[pi], counts[ci], (const char *) rbytes, nrb, out, size);
+      /* nrbytes -1 stands for rbytes == NULL: the library draws the bytes itself (entropy seam: the same bytes for every size) */
+      vh_ent_counter = 7;
+      errno = entry_errno;
+      ret = crypt_gensalt_rn (prefixes[pi], counts[ci], nrb < 0 ? 0 : (const char *) rbytes, nrb < 0 ? 0 : nrb, out, size);
       VH_END ();
     }
   int e = errno;
@@ -274,7 +278,7 @@ main (int argc, char **argv)
   uint64_t idx = 0;
   for (int pi = 0; pi < NPREF; pi++)
     for (int ci = 0; ci < NCNT; ci++)
-      for (int nrb = 0; nrb <= NRB_MAX; nrb++, idx++)
+      for (int nrb = -1; nrb <= NRB_MAX; nrb++, idx++)
         if (vh_mine (idx))
           {
             column (pi, ci, nrb, INT_MIN);
